@@ -507,7 +507,7 @@ class CFG:
             return pa[1] <= pb[1]
         return pa[0] in self.dom.get(pb[0], ())
 
-    def branch_facts(self, kill=None):
+    def branch_facts(self, kill=None, canon=None):
         """Forward must-analysis: for every block the set of (condition node id, truth) that hold on every
         path from entry.  Conditions are the blocks' last conditions (so `a && b` is split by the CFG).
         `kill(fact_cond_node, block)` may veto propagation through a block that changes the tested value."""
@@ -531,7 +531,9 @@ class CFG:
                     continue
                 f = out
                 if cond and len(ss) == 2 and tk not in ('SwitchStmt', 'CXXTryStmt', 'CXXForRangeStmt'):
-                    f = out | {(cond, idx == 0)}
+                    # conditions with the same text are the same fact (so that `if (a) {if (c) return;} else if (c) return;`
+                    # leaves `c` false on the merged path)
+                    f = out | {((canon(cond) if canon else cond), idx == 0)}
                 old = facts_in[s]
                 new = f if old is None else (old & f)
                 if old is None or new != old:
